@@ -293,7 +293,7 @@ def run(F, tier, res):
                     stop = True
                 if not stop:
                     st.extend(S.get(n, []))
-    res.rule('C20.G5', n_sites, 6, 'calling_process() call sites whose guard live range was scanned for calls reaching the lock')
+    res.rule('C20.G5', n_sites, 3, 'calling_process() call sites whose guard live range was scanned for calls reaching the lock')
     # also inside the lockers themselves: between lock and guard drop no call reaching the lock
     for p, lbs in lockers.items():
         blocks = F.blocks(p)
